@@ -49,7 +49,7 @@ func RunC05(c *Ctx) {
 	}
 	idx = e.explicitRanges(idx, true)
 	kinds := []string{"add", "add", "addbig", "compactall", "autocompact", "autocompact", "clean", "close,open", "reopen", "compactexpiry", "addmulti", "cr01", "cr12", "cr23"}
-	n := c.N(1200, 60000)
+	n := c.N(2000, 60000)
 	for i := 0; i < n; i++ {
 		if c.Mine(idx) {
 			e.randomScenarioX("random(compaction-heavy)", idx, c.Seed, kinds, true, 0)
